@@ -69,6 +69,7 @@ fn gen_std_case(t: &mut Tape, lib: &Lib, excluded: &[String]) -> ValCase {
         },
         float_pool: float_pool(),
         str_pool: str_pool(),
+        empty_containers: false,
     };
     let usable: Vec<usize> = lib
         .fns
